@@ -225,8 +225,23 @@ func poolGet(pool any, kind int) any {
 	v := p.take(pool, kind)
 	if v != nil {
 		p.stats.CompReuse++
+		setPooled(v, false)
 	}
 	return v
+}
+
+// setPooled tells an instrumented (de)compressor whether it is lying in the
+// pool: between Put and the next Get nobody may touch it.
+//
+//go:norace
+//go:noinline
+func setPooled(v any, pooled bool) {
+	switch x := v.(type) {
+	case *simDecompressor:
+		x.pooled = pooled
+	case *simCompressor:
+		x.pooled = pooled
+	}
 }
 
 //go:norace
@@ -237,6 +252,7 @@ func poolPut(pool any, kind int, v any) bool {
 		return false
 	}
 	p.give(pool, kind, v)
+	setPooled(v, true)
 	return true
 }
 
